@@ -270,8 +270,10 @@ class OutputFiles:
         key = (tuple(_normalized(path) for path in paths), interleaved)
         if key in self._record_writers:
             return self._record_writers[key]
-        for path in key[0]:
-            if path in self._used_paths:
+        for i, path in enumerate(key[0]):
+            if path in self._used_paths or (
+                path in key[0][:i] and path != "-" and not _is_special_file(path)
+            ):
                 # Only some of the files are shared with another writer
                 raise OSError(
                     f"Path {path} is needed for more than one output file. "
